@@ -718,8 +718,13 @@ pub fn writer_body(ch: &Chooser, cases: &[&WCase], workers: &[usize], modes: &[P
                     format!("call {k}: {}", show(&calls)),
                 ));
             }
-            if calls.len() != want.len() {
+            // the async side ends with shutdown calls the sync writers of uncompressed formats do not have
+            if want.len() > calls.len() || calls[want.len()..].iter().any(|(c, _)| !c.ends_with("shutdown")) {
                 return Err(Violation::new(format!("fmt-writer format={fmt} api={aname}{sfx} symptom=call-sequence-differs"), describe(), show(want), show(&calls)));
+            }
+            if let Some((call, Err(e))) = calls[want.len()..].iter().find(|(_, r)| r.is_err()) {
+                let kind = e.split(':').next().unwrap_or("");
+                return Err(Violation::new(format!("fmt-writer format={fmt} api={aname}{sfx} call={call} symptom=unexpected-error kind={kind}"), describe(), "Ok", e.clone()));
             }
             ch.tag("reject-script");
         }
